@@ -50,7 +50,10 @@ func (p *C09) Prepare(env *Env, tier string, seed uint64) error {
 			// (a single token of that size is not generated: ybase copies its token
 			// buffer for every rune it reads, which is quadratic real time while the
 			// logical clock stays far within budget; see DESIGN 13)
-			append(bytes.Repeat([]byte("C[1] "), 4_000_000), '\n'),
+			// (items cost crd about 58 KB of memory and 0.2 ms each, linearly — yaml.v3
+			// node trees —, so millions of items are a resource question, not a
+			// termination question: 60000 items stay inside the address-space limit)
+			append(bytes.Repeat([]byte("C[1] "), 60_000), '\n'),
 		}
 		for i, in := range huge {
 			argv := []string{"text", "parse"}
